@@ -285,6 +285,7 @@ func (s *Space) variants() []Variant {
 	for x := range s.Fam.Children {
 		vs = append(vs, Variant{Name: "then-filter-" + s.Fam.Names[x], Thr: defaultThreshold, Withhold: -1, Filter: -1, Refilter: x + 1, KeepRefs: true, When: whenInterior})
 		vs = append(vs, Variant{Name: "then-one-filter-value-first-rejecting-then-accepting-" + s.Fam.Names[x], Thr: defaultThreshold, Withhold: -1, Filter: -1, Refilter: x + 1, Reuse: true, KeepRefs: true, When: whenInterior})
+		vs = append(vs, Variant{Name: "then-changeset-and-location-spoiled-then-filter-" + s.Fam.Names[x], Thr: defaultThreshold, Withhold: -1, Filter: -1, Refilter: x + 1, Reuse: true, KeepVer: true, KeepRefs: true, When: whenInterior})
 		vs = append(vs, Variant{Name: "then-sort-by-time-then-filter-" + s.Fam.Names[x], Thr: defaultThreshold, Withhold: -1, Filter: -1, Refilter: x + 1, ByTime: true, KeepRefs: true, When: whenInterior})
 	}
 	vs = append(vs, Variant{Name: "filter-none", Thr: defaultThreshold, Withhold: -1, Filter: -2, When: whenInterior})
@@ -888,14 +889,17 @@ func (k *worker) evalVariant(v Variant, times []time.Time) *truth {
 				}
 				var keep osm.Updates
 				for _, u := range w.Updates {
-					if u.Index < len(w.Nodes) && w.Nodes[u.Index].FeatureID() != accept {
+					if v.KeepVer || (u.Index < len(w.Nodes) && w.Nodes[u.Index].FeatureID() != accept) {
 						keep = append(keep, u)
 					}
 				}
 				w.Updates = keep
 				for j := range w.Nodes {
 					if w.Nodes[j].FeatureID() == accept && w.Nodes[j].Version != 0 {
-						w.Nodes[j].Version, w.Nodes[j].ChangesetID, w.Nodes[j].Lat, w.Nodes[j].Lon = 9999, 1, 88, 88
+						if !v.KeepVer {
+							w.Nodes[j].Version = 9999
+						}
+						w.Nodes[j].ChangesetID, w.Nodes[j].Lat, w.Nodes[j].Lon = 1, 88, 88
 					}
 				}
 			}
@@ -905,14 +909,17 @@ func (k *worker) evalVariant(v Variant, times []time.Time) *truth {
 				}
 				var keep osm.Updates
 				for _, u := range rl.Updates {
-					if u.Index < len(rl.Members) && rl.Members[u.Index].FeatureID() != accept {
+					if v.KeepVer || (u.Index < len(rl.Members) && rl.Members[u.Index].FeatureID() != accept) {
 						keep = append(keep, u)
 					}
 				}
 				rl.Updates = keep
 				for j := range rl.Members {
 					if rl.Members[j].FeatureID() == accept && rl.Members[j].Version != 0 {
-						rl.Members[j].Version, rl.Members[j].ChangesetID, rl.Members[j].Lat, rl.Members[j].Lon = 9999, 1, 88, 88
+						if !v.KeepVer {
+							rl.Members[j].Version = 9999
+						}
+						rl.Members[j].ChangesetID, rl.Members[j].Lat, rl.Members[j].Lon = 1, 88, 88
 					}
 				}
 			}
